@@ -46,6 +46,13 @@ CHECKS = {
             "(and Bounded over each) with element widths 1/2/4/8; TrIO.tla requires each call to be the step of the "
             "IO.tla contract automaton up to and including the first failing call; MC_IO checks OneContract on the "
             "product of all kinds.", "6 C17"),
+    "C18": ("SipHash.tla (SipHash-2-4 transcribed from the paper on 16-bit limbs, self-checked against the reference "
+            "vectors by MC_Fn) evaluates every hash: messages of every length/residue, uint8_t and char buffers, varied keys, "
+            "and 26 generated names x (NOP_TABLE_NS hash at compile time / run time / on the wire, NOP_INTERFACE and "
+            "NOP_INTERFACE32 hashes, NOP_METHOD selectors); TrFn.tla requires equality.", "6 C18"),
+    "C20": ("Endian.tla (byte-order conversions as byte permutations, theorems checked by MC_Fn); every value of the 8/16-bit "
+            "types, boundary/lane/random values of wider types and floats validated by TLC (TrFn.tla); all 2^32 inputs of "
+            "uint32/int32/float (thorough; first 2^27 in quick) compared with the byte map emitted by TLC from Endian.tla.", "6 C20"),
 }
 
 PENDING_REASON = "check under construction in this session (DESIGN.md section 12); moves to checks when built"
